@@ -70,6 +70,23 @@ var KnownPredicates = map[string]func(c *Case) bool{
 	},
 }
 
+func init() {
+	// C13: flattened strings are not injective when values contain separators or a hash map has
+	// several entries; only "differ but compare equal" reports are covered.
+	KnownPredicates["flat_separator_collision"] = func(c *Case) bool {
+		if c.Kind != "oracle" || !FormatCollision(c.Op) {
+			return false
+		}
+		for _, m := range c.Messages {
+			if !(len(m) > 0 && (m == "nodes that differ in an attribute compare equal" || m == "edges that differ compare equal" ||
+				m == "node lists that differ compare equal" || m == "(not minimised)")) {
+				return false
+			}
+		}
+		return true
+	}
+}
+
 // Covered returns the id of the first known finding whose predicate covers the case.
 func (kf *KnownFile) Covered(c *Case) string {
 	for _, k := range kf.Known {
